@@ -64,6 +64,8 @@ class Lidar:
                 if bad_blk is not None and bi == bad_blk:
                     idb[0] ^= 0x5A
                 buf[bo:bo + len(idb)] = idb
+                if len(idb) == 1 and rng is None:
+                    buf[bo + 1] = 1 + bi % 2       # Ruby-family blocks: one identifier byte followed by the return number (ret_id)
                 buf[bo + T['off_blk_az']:bo + T['off_blk_az'] + 2] = int(az).to_bytes(2, 'big')
                 for ci, (dist, inten) in enumerate(chans):
                     co = bo + T['off_blk_chan'] + ci * T['sizeof_chan']
@@ -193,7 +195,7 @@ class Cfg:
 
 # ------------------------------------------------------------------------------ Ethernet / IP / UDP frames
 def udp_frame(payload, dport, sport=6699, vlan=False, ihl=5, ip_id=0, frag_off=0, more=False, proto=17, ethertype=0x0800,
-              ipv6=False, vlan_type=0x8100, raw_ip_payload=None, tot_len=None, ver=4):
+              ipv6=False, vlan_type=0x8100, raw_ip_payload=None, tot_len=None, ver=4, df=False):
     """an Ethernet frame; raw_ip_payload (bytes after the IP header) overrides the UDP header + payload"""
     eth = bytes([0, 1, 2, 3, 4, 5, 6, 7, 8, 9, 10, 11])
     if vlan:
@@ -211,7 +213,7 @@ def udp_frame(payload, dport, sport=6699, vlan=False, ihl=5, ip_id=0, frag_off=0
         body = raw_ip_payload
     hl = ihl * 4
     tl = hl + len(body) if tot_len is None else tot_len
-    fo = ((1 if more else 0) << 13) | ((frag_off // 8) & 0x1fff)
+    fo = ((1 if df else 0) << 14) | ((1 if more else 0) << 13) | ((frag_off // 8) & 0x1fff)
     ip = bytes([(ver << 4) | ihl, 0]) + (tl & 0xffff).to_bytes(2, 'big') + ip_id.to_bytes(2, 'big') + fo.to_bytes(2, 'big') + bytes([64, proto, 0, 0]) + bytes([192, 168, 1, 200, 192, 168, 1, 102])
     ip += bytes(max(0, hl - 20))
     return eth + ip[:max(hl, 20)] + body
